@@ -774,3 +774,9 @@ mod testing {
         assert!(compute_variable_length_integer_encode_size(usize::MAX).is_err());
     }
 }
+
+/// Verification hook (feature `verif`): number of encoding steps still queued for the current packet.
+#[cfg(feature = "verif")]
+pub(crate) fn verif_encoder_steps_left(encoder: &Encoder) -> usize {
+    encoder.steps.len()
+}
